@@ -162,3 +162,6 @@ META = dict(
     assumptions=["window volume > 0 for VWMA (totality is C09's)", "a counterexample must deviate by more than 1e-6*(1+|ref|) and reproduce on the real code"],
     explanation="library readings vs independent definitions as z3 terms over symbolic candles; None pattern exact, values within margin, averages inside the range of their inputs",
 )
+
+# families added after the seeding rounds (kept next to the original bound so that MANIFEST / evidence stay current)
+META["bounds"] = dict(META["bounds"], quick=META["bounds"]["quick"] + "; added after the seeding rounds: " + 'swap-input, sibling instances (fast/slow side by side), re-parameterisation variants (before warm-up, Indicator.recalculate, replaced member), round_value 4 within k half-units for price and signed late inputs, round_value 8 and 1 after every writer, EMA smoothing = period+2.5, averages of a boolean series')
